@@ -230,3 +230,5 @@ func callsIn(n ast.Node) []*ast.CallExpr {
 	})
 	return out
 }
+
+func variantsAll() []variants.Params { return variants.All() }
